@@ -110,12 +110,12 @@ impl StreamId {
     
     /// Create a StreamId from a string in format "millis-seq"
     pub fn from_string(s: &str) -> Option<Self> {
-        if let Some(dash_pos) = s.find('-') {
-            let (millis_str, seq_str) = s.split_at(dash_pos);
-            let seq_str = &seq_str[1..];
-            
-            let millis = Self::parse_u64_fast(millis_str.as_bytes())?;
-            let seq = Self::parse_u64_fast(seq_str.as_bytes())?;
+        // Work on bytes: callers may hand over request bytes that are not valid UTF-8,
+        // and slicing a str at dash_pos + 1 panics when that is not a char boundary
+        let bytes = s.as_bytes();
+        if let Some(dash_pos) = bytes.iter().position(|&b| b == b'-') {
+            let millis = Self::parse_u64_fast(&bytes[..dash_pos])?;
+            let seq = Self::parse_u64_fast(&bytes[dash_pos + 1..])?;
             
             Some(StreamId::new(millis, seq))
         } else {
@@ -126,10 +126,13 @@ impl StreamId {
     /// Fast integer parsing
     #[inline]
     fn parse_u64_fast(bytes: &[u8]) -> Option<u64> {
+        // An empty part ("5-", "-5") is not a number, and a value above u64::MAX
+        // must be refused rather than wrapped
+        if bytes.is_empty() { return None; }
         let mut result = 0u64;
         for &b in bytes {
             if b < b'0' || b > b'9' { return None; }
-            result = result.wrapping_mul(10).wrapping_add((b - b'0') as u64);
+            result = result.checked_mul(10)?.checked_add((b - b'0') as u64)?;
         }
         Some(result)
     }
